@@ -99,6 +99,16 @@ func ruleRandomBits(e *Env) {
 		return
 	}
 	site := flow.FnName(fn)
+	// "every generated ID": the draws are turned into IDs by RandomID only — no second function of the module calls
+	// the drawing function (its version/variant bits would be unchecked)
+	for _, caller := range flow.SortedFuncs(e.C.AllRepoFuncs()) {
+		if flow.Origin(caller) == fn || flow.Origin(caller) == two {
+			continue
+		}
+		for _, call := range e.C.Calls(caller, func(f *ssa.Function) bool { return flow.Origin(f) == two }) {
+			e.S.Bad(rule, flow.FnName(caller), "second generator", "draws from the shared generator outside RandomID: the IDs built here are not covered by the version/variant evaluation", e.posOf(call), "")
+		}
+	}
 	// every (*rand.Rand).Int63() call yields a fresh 63-bit symbol (bit 63 clear, documented by math/rand)
 	draws := 0
 	ev := &pred.Evaluator{Prog: e.P.SSA, GlobalInit: e.globalTables(), Oracle: noOracle{}, Summaries: map[string]pred.Summary{
